@@ -91,6 +91,19 @@ CHECKS = {
             'programs with Iter operations',
             'deterministic simulation: replay of one seeded world under '
             'observer configurations, differential oracle'),
+    'C14': ('store', 'exploration',
+            'model-based history machine: interleaved open/pull/close '
+            'sessions over all 7 Open operations with arbitrary '
+            'MaxObjectCount sequences, stale/fabricated/foreign/wrong-kind '
+            'contexts, repository mutation, namespace removal and pull '
+            'switch-off during sessions; per-session reference list from the '
+            'traditional operation; exactly-once, limits, eos, progress, '
+            'refusal and leak oracles',
+            'direct object path of the mock (no XML); the mock has no '
+            'enumeration timeout, so no clock dimension exists; set-valued '
+            'association results are compared as multisets',
+            'deterministic simulation: seeded operation/fault histories '
+            'against an executable reference model'),
 }
 
 ENGINES = [
